@@ -54,8 +54,8 @@ func emitSeg(e *Emitter, a, b, c, d geom.Coord) {
 	e.emitR("C12.seg", in, func() string {
 		if !done {
 			cp := func(x geom.Coord) geom.Coord { return append(geom.Coord{}, x...) }
-			res = lineintersector.LineIntersectsLine(lineintersector.RobustLineIntersector{}, cp(a), cp(b), cp(c), cp(d))
-			nr = lineintersector.LineIntersectsLine(lineintersector.NonRobustLineIntersector{}, cp(a), cp(b), cp(c), cp(d))
+			res = lineintersector.LineIntersectsLine(robustStrategy(), cp(a), cp(b), cp(c), cp(d))
+			nr = lineintersector.LineIntersectsLine(nonRobustStrategy(), cp(a), cp(b), cp(c), cp(d))
 			done = true
 		}
 		pts := res.Intersection()
@@ -267,4 +267,43 @@ func genC12(r *Rng, e *Emitter, n int) {
 		}
 		emitSeg(e, a, b, c, d)
 	}
+}
+
+// The strategy in every form a caller may hold it in: the value, a pointer to it, a struct of the
+// caller's own that embeds it (or a pointer to that).
+type ownRobust struct {
+	lineintersector.RobustLineIntersector
+	name string
+}
+
+type ownNonRobust struct {
+	lineintersector.NonRobustLineIntersector
+	name string
+}
+
+var strategyForm int
+
+func robustStrategy() lineintersector.Strategy {
+	strategyForm++
+	switch strategyForm % 8 {
+	case 1:
+		return &lineintersector.RobustLineIntersector{}
+	case 3:
+		return ownRobust{name: "mine"}
+	case 5:
+		return &ownRobust{name: "mine"}
+	}
+	return lineintersector.RobustLineIntersector{}
+}
+
+func nonRobustStrategy() lineintersector.Strategy {
+	switch strategyForm % 8 {
+	case 2:
+		return &lineintersector.NonRobustLineIntersector{}
+	case 4:
+		return ownNonRobust{name: "mine"}
+	case 6:
+		return &ownNonRobust{name: "mine"}
+	}
+	return lineintersector.NonRobustLineIntersector{}
 }
